@@ -936,8 +936,9 @@ impl<Octs> Nsec3Salt<Octs> {
     pub fn scan<S: Scanner<Octets = Octs>>(
         scanner: &mut S,
     ) -> Result<Self, S::Error> {
+        /// The Base 16 converter, if any, and the length of the data so far.
         #[derive(Default)]
-        struct Converter(Option<Option<base16::SymbolConverter>>);
+        struct Converter(Option<Option<base16::SymbolConverter>>, usize);
 
         impl<Sym, Error> ConvertSymbols<Sym, Error> for Converter
         where
@@ -969,7 +970,18 @@ impl<Octs> Nsec3Salt<Octs> {
                 match self.0.as_mut() {
                     None => unreachable!(),
                     Some(None) => Err(Error::custom("illegal NSEC3 salt")),
-                    Some(Some(base16)) => base16.process_symbol(symbol),
+                    Some(Some(base16)) => {
+                        let res = base16.process_symbol(symbol)?;
+                        if let Some(data) = res {
+                            self.1 += data.len();
+                            if self.1 > Nsec3Salt::MAX_LEN {
+                                return Err(Error::custom(
+                                    "NSEC3 salt too long",
+                                ));
+                            }
+                        }
+                        Ok(res)
+                    }
                 }
             }
 
@@ -1320,8 +1332,51 @@ impl<Octs> OwnerHash<Octs> {
     pub fn scan<S: Scanner<Octets = Octs>>(
         scanner: &mut S,
     ) -> Result<Self, S::Error> {
+        /// The Base 32 converter and the length of the data so far.
+        struct Converter(base32::SymbolConverter, usize);
+
+        impl Converter {
+            fn check<'a, Error: ScannerError>(
+                len: &mut usize,
+                data: Option<&'a [u8]>,
+            ) -> Result<Option<&'a [u8]>, Error> {
+                if let Some(data) = data {
+                    *len += data.len();
+                    if *len > OwnerHash::MAX_LEN {
+                        return Err(Error::custom(
+                            "NSEC3 owner hash too long",
+                        ));
+                    }
+                }
+                Ok(data)
+            }
+        }
+
+        impl<Sym, Error> ConvertSymbols<Sym, Error> for Converter
+        where
+            Sym: Into<EntrySymbol>,
+            Error: ScannerError,
+        {
+            fn process_symbol(
+                &mut self,
+                symbol: Sym,
+            ) -> Result<Option<&[u8]>, Error> {
+                let data = self.0.process_symbol(symbol)?;
+                Self::check(&mut self.1, data)
+            }
+
+            fn process_tail(&mut self) -> Result<Option<&[u8]>, Error> {
+                let data = <base32::SymbolConverter as ConvertSymbols<
+                    Sym,
+                    Error,
+                >>::process_tail(&mut self.0)?;
+                Self::check(&mut self.1, data)
+            }
+        }
+
+        // The converter makes sure there are at most MAX_LEN octets.
         scanner
-            .convert_token(base32::SymbolConverter::new())
+            .convert_token(Converter(base32::SymbolConverter::new(), 0))
             .map(|octets| unsafe { Self::from_octets_unchecked(octets) })
     }
 
@@ -1435,8 +1490,11 @@ where
     type Err = base32::DecodeError;
 
     fn from_str(s: &str) -> Result<Self, Self::Err> {
-        base32::decode_hex(s)
-            .map(|octets| unsafe { Self::from_octets_unchecked(octets) })
+        // An owner hash is at most 255 octets long.
+        base32::decode_hex(s).and_then(|octets| {
+            Self::from_octets(octets)
+                .map_err(|_| base32::DecodeError::ShortBuf)
+        })
     }
 }
 
